@@ -13,13 +13,19 @@ def run(tier, seed):
     rep.rule = ("obligations = named ensures clauses / callee preconditions of the targets, one VC per control path: (1) try_to_merge_ops: the merged extend equals the two "
                 "extends applied in turn, for all assignment maps and all tables; (3) every builder forwards ALL its arguments through an eliminated order_rows and otherwise "
                 "builds its node from all of them; (4) select_columns only accepts columns of the step it is applied to, also when it collapses onto an earlier select/drop; "
-                "(5) only an order_rows without limit is ever eliminated")
+                "(5) only an order_rows without limit is ever eliminated; (2) extend_parsed_ merges a new extend into an existing one only when partition, order_by (as a list), reverse "
+                "and windowed-ness coincide, and otherwise builds the node on this step from every argument")
     rep.assumptions += [
         "ghost semantics of extend: simultaneous assignment; ev(e,T) depends only on cols(e) and the window columns (frame axiom); expr_rep.get_columns_used = union of cols",
         "builders and constructors are abstracted at call sites as uninterpreted functions of all their arguments",
-        "extend_parsed_'s own gating (same partition/order/reverse/windowed-ness before merging) and the order-insensitivity of later operators (licence for dropping order_rows) are checked only boundedly (C07 / C18 runs)",
+        "extend_parsed_'s merge decision is proved as a REGION contract: the verified text is the suffix of the real extend_parsed_ body starting at `if isinstance(self, ExtendNode):`, "
+        "re-extracted from the source on every run; the statements before it (argument normalisation, disjointness checks, forwarding through an eliminated order_rows) are dropped and what "
+        "they establish is assumed as the region's precondition (partition_by is 1 or a list, order_by / reverse are lists, self is not an eliminable order_rows)",
+        "the order-insensitivity of later operators (licence for dropping order_rows) is checked only boundedly (C07 / C18 runs)",
     ]
     run_proofs(rep, MODS, keys, REPLAYS)
+    from contracts.c06_builders import REGION_KEYS
+    run_proofs(rep, ["contracts.c06_extend"], REGION_KEYS, {})
     return rep
 
 
